@@ -72,7 +72,16 @@ Record path_inv (root : bytes) (r : rstate) : Prop := mkPI {
   pi_mvf : forall c p, In (c, p) (mvf r) -> rooted root p;
   pi_pend : forall c p, pend r = Some (c, p) -> rooted root p }.
 
-(* the same for a root spelled with trailing separators (statement C19_reader_any_root_full) *)
+(* the same invariant over an arbitrary pair of predicates "is a path of the tree" / "is strictly below the root" *)
+Record gpath_inv (R : bytes -> Prop) (r : rstate) : Prop := mkGPI {
+  gpi_pfw : forall wd p, In (wd, p) (pfw r) -> R p;
+  gpi_wfp : forall p wd, In (p, wd) (wfp r) -> R p;
+  gpi_mvf : forall c p, In (c, p) (mvf r) -> R p;
+  gpi_pend : forall c p, pend r = Some (c, p) -> R p }.
+Definition graw_ok (R B : bytes -> Prop) (x : raw) : Prop :=
+  B (r_path x) \/ (R (r_path x) /\ noparent (r_mask x) = true).
+
+(* the same for a root spelled with trailing separators (theorem C19_reader_any_root) *)
 Definition jraw_ok (root : bytes) (x : raw) : Prop :=
   jbelow root (r_path x) \/ (jrooted root (r_path x) /\ noparent (r_mask x) = true).
 Definition jpath_inv (root : bytes) (r : rstate) : Prop :=
